@@ -955,12 +955,202 @@ pub fn wire_cases(tier: &str) -> Vec<Value> {
             i += chunk;
         }
     }
+    out.extend(wire_hist_cases(tier));
     out
+}
+
+// Address histories: addresses are added to and removed from the advertising interface WHILE the
+// service runs; after every change a solicitation is answered.  What `$self6` stands for, and which
+// prefixes the top-level `addresses` imply, must follow the interface as it is NOW.
+const HIST_ADDRS: [(&str, &str, u8); 3] = [("G1", "2001:db8:0:1::1", 64), ("G2", "2001:db8:0:2::1", 64), ("U", "fd00:0:0:1::1", 64)];
+
+/// every sequence of applicable add/remove events up to `depth` (G1 is present at the start)
+fn addr_histories(depth: usize) -> Vec<Vec<String>> {
+    fn rec(present: [bool; 3], left: usize, cur: &mut Vec<String>, out: &mut Vec<Vec<String>>) {
+        if !cur.is_empty() {
+            out.push(cur.clone());
+        }
+        if left == 0 {
+            return;
+        }
+        for i in 0..3 {
+            let mut p = present;
+            p[i] = !p[i];
+            cur.push(format!("{}{}", if present[i] { "del" } else { "add" }, HIST_ADDRS[i].0));
+            rec(p, left - 1, cur, out);
+            cur.pop();
+        }
+    }
+    let mut out = vec![];
+    rec([true, false, false], depth, &mut vec![], &mut out);
+    // only maximal histories and those not a prefix of another are needed, but short ones are cheap
+    // and give the shortest counterexample: keep all
+    out
+}
+
+fn wire_hist_cases(tier: &str) -> Vec<Value> {
+    let mut out = vec![];
+    for mode in ["explicit", "default", "implied"] {
+        for h in addr_histories(if tier == "thorough" { 4 } else { 2 }) {
+            // a history is run whole; its prefixes are judged on the way, so keep only those that
+            // are not a proper prefix of another one of the list
+            out.push(json!({"engine":"ewire","check":"c17","kind":"addr-history","mode":mode,"events":h}));
+        }
+    }
+    let all: Vec<Vec<String>> = out.iter().map(|c| c["events"].as_array().unwrap().iter().map(|e| e.as_str().unwrap().to_string()).collect()).collect();
+    out.into_iter().filter(|c| {
+        let e: Vec<String> = c["events"].as_array().unwrap().iter().map(|e| e.as_str().unwrap().to_string()).collect();
+        !all.iter().any(|o| o.len() > e.len() && o[..e.len()] == e[..])
+    }).collect()
+}
+
+fn wire_run_addr_history(case: &Value) -> crate::netrun::CaseResult {
+    use crate::ewire::*;
+    use crate::netrun::CaseResult;
+    if !crate::enet::ISOLATED.load(std::sync::atomic::Ordering::SeqCst) {
+        return CaseResult::machinery("the wire part needs a private network namespace (unshare failed)");
+    }
+    teardown_veth();
+    if let Err(e) = setup_veth(Route6::None) {
+        return CaseResult::machinery(format!("veth set-up: {e}"));
+    }
+    let mode = case["mode"].as_str().unwrap_or("explicit");
+    let yaml = match mode {
+        "explicit" => "---\nrouter-advertisements:\n  eth0:\n    dns-servers:\n      addresses: ['$self6']\n",
+        "default" => "---\nrouter-advertisements:\n  eth0:\n    lifetime: 600s\n",
+        _ => "---\naddresses: ['2001:db8:0:1::/64', '2001:db8:0:2::/64', 'fd00:0:0:1::/64', 192.0.2.0/24]\n",
+    };
+    let mut res = CaseResult::ok(format!("wire:addr-history:{mode}"));
+    let conf = match erbium::config::verif_load_config_from_string(yaml) {
+        Ok(c) => c,
+        Err(e) => return CaseResult::machinery(format!("address-history configuration rejected: {e}")),
+    };
+    let mut w = match WireRt::new() {
+        Ok(w) => w,
+        Err(e) => return CaseResult::machinery(e),
+    };
+    crate::common::clock::set_secs(1_700_000_000);
+    let netinfo = w.rt.block_on(erbium_net::netinfo::SharedNetInfo::new());
+    w.pump(4);
+    let mut wire = match Wire::open() {
+        Ok(x) => x,
+        Err(e) => return CaseResult::machinery(e),
+    };
+    let svc = {
+        let _g = w.rt.enter();
+        match RaAdvService::new(netinfo.clone(), conf) {
+            Ok(s) => std::sync::Arc::new(s),
+            Err(e) => return CaseResult::machinery(format!("RaAdvService::new: {}", e)),
+        }
+    };
+    let h = w.rt.spawn(svc.clone().run());
+    w.pump(6);
+    let events: Vec<String> = case["events"].as_array().cloned().unwrap_or_default().iter().filter_map(|e| e.as_str().map(|s| s.to_string())).collect();
+    let mut present = [true, false, false];
+    let mut judged = 0u64;
+    // step 0 = before any change, then after every event
+    for step in 0..=events.len() {
+        if step > 0 {
+            let ev = &events[step - 1];
+            let (add, tag) = if let Some(t) = ev.strip_prefix("add") { (true, t) } else { (false, ev.strip_prefix("del").unwrap_or("")) };
+            let Some(i) = HIST_ADDRS.iter().position(|a| a.0 == tag) else { return CaseResult::machinery(format!("unknown event {ev}")) };
+            let r = if add { addr6_add(HIST_ADDRS[i].1, HIST_ADDRS[i].2) } else { addr6_del(HIST_ADDRS[i].1, HIST_ADDRS[i].2) };
+            if let Err(e) = r {
+                return CaseResult::machinery(format!("event {ev}: {e}"));
+            }
+            present[i] = add;
+            // let the service's netlink listener see the notification
+            w.pump(12);
+        }
+        let sub = json!({"engine":"ewire","check":"c17","kind":"addr-history","mode":mode,"events":events[..step].to_vec()});
+        let mk = |oracle: &str, what: String| Violation::new(oracle, format!("after the interface's addresses changed at run time ({}): {what}", if step == 0 { "no change yet".to_string() } else { events[..step].join(", ") }), sub.clone()).sig("oracle", oracle).sig("part", "wire-history");
+        wire.poll();
+        let mark = wire.rx.len();
+        if let Err(e) = wire.send(&rs_frame(&PEER_MAC, true)) {
+            return CaseResult::machinery(e);
+        }
+        let mut got: Option<Vec<u8>> = None;
+        for _ in 0..200 {
+            w.pump(3);
+            wire.poll();
+            for f in &wire.rx[mark..] {
+                if let Some((smac, _src, _dst, _hop, icmp, _ok)) = as_ra(f) {
+                    if smac == SRV_MAC {
+                        got = Some(icmp);
+                        break;
+                    }
+                }
+            }
+            if got.is_some() {
+                break;
+            }
+        }
+        wire.rx.clear();
+        let ps = panics::take_all();
+        if let Some(p) = ps.first() {
+            res.violations.push(mk("service-panic", format!("the service task panicked: {} at {}", p.msg, panics::short_loc(&p.loc))));
+            break;
+        }
+        // the interface's addresses as the harness knows them (its own book-keeping of the history)
+        let mut current: Vec<[u8; 16]> = vec![ll_of(&SRV_MAC).octets()];
+        let mut want_pios: Vec<(u8, [u8; 16])> = vec![];
+        for (i, (_, a, l)) in HIST_ADDRS.iter().enumerate() {
+            if present[i] {
+                let ip: std::net::Ipv6Addr = a.parse().unwrap();
+                current.push(ip.octets());
+                let mut net = ip.octets();
+                for b in net.iter_mut().skip(*l as usize / 8) {
+                    *b = 0;
+                }
+                want_pios.push((*l, net));
+            }
+        }
+        want_pios.sort();
+        let Some(icmp) = got else {
+            // implied mode with no address inside the listed prefixes: nothing to advertise
+            if !(mode == "implied" && want_pios.is_empty()) {
+                res.violations.push(mk("no-advertisement", "a router solicitation got no router advertisement".into()));
+            }
+            continue;
+        };
+        judged += 1;
+        match decode_ra(&icmp) {
+            Err(e) => res.violations.push(mk("rfc-format", format!("RFC decoder rejects the advertisement: {e}"))),
+            Ok(ra) => {
+                let show = |a: &[u8; 16]| std::net::Ipv6Addr::from(*a).to_string();
+                let servers: Vec<[u8; 16]> = ra.rdnss.iter().flat_map(|(_, v)| v.iter().copied()).collect();
+                if servers.len() != 1 {
+                    res.violations.push(mk("self6", format!("the advertisement names {} recursive DNS servers ({:?}), the configuration names exactly one ($self6)", servers.len(), servers.iter().map(show).collect::<Vec<_>>())));
+                } else if !current.contains(&servers[0]) {
+                    res.violations.push(mk("self6", format!("$self6 was advertised as {}, which is not an address of the interface (it has {:?})", show(&servers[0]), current.iter().map(show).collect::<Vec<_>>())));
+                }
+                if mode == "implied" {
+                    let mut got_pios: Vec<(u8, [u8; 16])> = ra.pios.iter().map(|p| (p.len, p.prefix)).collect();
+                    got_pios.sort();
+                    if got_pios != want_pios {
+                        res.violations.push(mk("implied-prefixes", format!("prefixes advertised: {:?}; the listed prefixes the interface has an address in: {:?}", got_pios.iter().map(|(l, p)| format!("{}/{l}", show(p))).collect::<Vec<_>>(), want_pios.iter().map(|(l, p)| format!("{}/{l}", show(p))).collect::<Vec<_>>())));
+                    }
+                }
+            }
+        }
+    }
+    h.abort();
+    drop(svc);
+    w.pump(3);
+    drop(wire);
+    drop(w);
+    teardown_veth();
+    crate::common::clock::unset();
+    res.stats = json!({"wire_history_advertisements": judged, "wire_histories": 1});
+    res
 }
 
 pub fn wire_run_case(case: &Value) -> crate::netrun::CaseResult {
     use crate::ewire::*;
     use crate::netrun::CaseResult;
+    if case["kind"].as_str() == Some("addr-history") {
+        return wire_run_addr_history(case);
+    }
     if !crate::enet::ISOLATED.load(std::sync::atomic::Ordering::SeqCst) {
         return CaseResult::machinery("the wire part needs a private network namespace (unshare failed)");
     }
@@ -1086,6 +1276,11 @@ pub fn run(tier: &str, replay: Option<Value>) -> ! {
     if let Some(case) = replay {
         rep.replay_mode = true;
         let case = if case.get("case").is_some() { case["case"].clone() } else { case };
+        if case["engine"].as_str() == Some("ewire") && case["kind"].as_str() == Some("addr-history") {
+            crate::enet::isolate_network();
+            crate::netrun::replay_one(&mut rep, &case, wire_run_case);
+            rep.finish();
+        }
         if case["engine"].as_str() == Some("ewire") {
             // one configuration on the wire: find it in the wire list and run a one-element slice
             crate::enet::isolate_network();
@@ -1144,6 +1339,7 @@ pub fn run(tier: &str, replay: Option<Value>) -> ! {
     let wire_n = agg.stats_sum.get("wire_advertisements").copied().unwrap_or(0.0) as u64;
     rep.cov("wire_configurations_loaded", agg.stats_sum.get("wire_configs").copied().unwrap_or(0.0) as u64);
     rep.cov("wire_advertisements_judged", wire_n);
+    rep.cov("wire_address_histories", json!({"histories": agg.stats_sum.get("wire_histories").copied().unwrap_or(0.0) as u64, "advertisements_judged": agg.stats_sum.get("wire_history_advertisements").copied().unwrap_or(0.0) as u64, "rule": "while the real service runs, IPv6 addresses (a second global one, a unique-local one, the first global one) are added to and removed from the advertising interface with `ip addr add/del` -- every applicable sequence of such events up to the depth (quick 2, thorough 4) x 3 configurations ($self6 written in the interface's section; the default dns-servers; no interface section but top-level addresses); before the first and after every event a solicitation is answered: the recursive DNS server advertised for $self6 must be an address the interface has NOW, and the prefixes implied by the top-level addresses must be exactly those the interface has an address in NOW"}));
     rep.cov("wire_rule", "the real RaAdvService (real netlink-fed NetInfo, real raw ICMPv6 socket) on one end of a veth pair in a private network namespace, one instance per configuration; a router solicitation frame is sent from the other end and the advertisement captured there is decoded by the same RFC decoder and compared with expected(configuration, environment), for three environments: no IPv6 default route, default route out of the advertising interface, default route out of another interface; every third configuration additionally lists the interface's own prefix under the top-level addresses (the explicit section must still win). Also judged: ICMPv6 checksum, IPv6 hop limit 255, link-local source, destination");
     rep.cov("evaluations", cfgs.len() as u64 + wire_n);
     rep.cov("distinct_nontrivial", distinct_yaml.len() as u64);
